@@ -22,6 +22,7 @@
 #include "diffcore_port.h"
 #include "steer.h"
 #include "tablewrap.h"
+#include "paramwatch.h"
 
 using namespace verif;
 
@@ -48,6 +49,7 @@ struct Spec
 static void run(const Spec & sp, uint64_t seed, long n_iid, int n_grid, bool hostile, long deep_events)
 {
   std::string lab = sp.label();
+  verif::param_watch().context = lab;
   Stats st;
   st.name = lab;
   Tape tape;
@@ -220,6 +222,15 @@ static void run(const Spec & sp, uint64_t seed, long n_iid, int n_grid, bool hos
     if (!(toall_after == toall) && !(std::isnan(toall_after) && std::isnan(toall)))
       rec_simple(budget, lab + "|toallevents-changes", fmt("get_to_all_events() was %.12g after initialize() and is %.12g after %ld shots", toall, toall_after, st.events));
   }
+  // transition-parameter monitor: what the interposed nucltransK* entry points saw while this configuration ran
+  for (auto & kv : verif::param_watch().bad) {
+    Mismatch & x = st.wf[kv.first];
+    if (x.count++ == 0) {
+      x.key = kv.first;
+      x.detail = kv.second;
+    }
+  }
+  verif::param_watch().bad.clear();
   std::sort(st.draws_hist.begin(), st.draws_hist.end());
   size_t p999 = st.draws_hist.empty() ? 0 : st.draws_hist[(size_t)(0.999 * (st.draws_hist.size() - 1))];
   fprintf(OUT, "{\"config\":%s,\"accepted\":true,\"kind\":\"%c\",\"name\":%s,\"level\":%d,\"mode\":%d,\"window\":%s,\"e1\":%s,\"e2\":%s,\"toallevents\":%s,"
@@ -288,5 +299,6 @@ int main(int argc, char ** argv)
     run(sp, seed, n_iid, n_grid, hostile, deep_events);
   }
   if (VERIF_TABLEWRAP_ACTIVE) fprintf(OUT, "{\"tablewrap_divdif_calls\":%ld}\n", (long)verif::g_divdif_wrapped);
+  fprintf(OUT, "{\"paramwatch_transition_calls\":%ld}\n", verif::param_watch().calls);
   return 0;
 }
